@@ -305,8 +305,10 @@ def check_real_schedulers(scn, ref_cache):
             for cls, msg in S.compare(ref, S.normalise(res)):
                 out.append((f"real-scheduler-differs-{cls}", f"{sched}{kw}: {msg}"))
         except Exception as e:  # noqa: BLE001
-            if scn.get("time_chunks") or scn.get("secondary_chunks"):
-                continue
+            from .runner import relaxed
+
+            if relaxed(scn):
+                continue  # equal-or-raise situations (chunked time / series dimension, misaligned rasters)
             out.append(("real-scheduler-raises", f"{sched}{kw}: {type(e).__name__}: {str(e)[:200]}"))
     return out, n
 
